@@ -605,3 +605,14 @@ fire("C10", "tail-copy-unguarded", "R10.8", E(MG, "contract_pair", "    if not s
 silent("C10", "tail-copy-guard-nested", E(MG, "contract_pair", "    if not skip_char and len_char_list > 0:\n        new_char_list[new_char_index] = char_list[len_char_list - 1]\n        new_char_index += 1\n",
                                           "    if len_char_list > 0:\n        if not skip_char:\n            new_char_list[new_char_index] = char_list[len_char_list - 1]\n            new_char_index += 1\n"),
        "the same guard as a nested if")
+
+# --- C12 / C08: nested chunk offsets (seeded r2_C12)
+_NC_OLD = "                    chunk_start = j * self.chunk_size + block_start\n                    chunk_end = min(block_end, chunk_start + self.chunk_size)\n"
+_NC_REL = "                    chunk_start = j * self.chunk_size\n                    chunk_end = min(block_end - block_start, chunk_start + self.chunk_size)\n"
+for _p, _r in (("C12", "R12.4"), ("C08", "R8.2")):
+    fire(_p, "chunk-offset-lost", _r, E(LOT, "SinkhornVectorizer.transform", _NC_OLD, _NC_REL),
+         "seeded r2_C12: block-relative chunk positions used on the whole matrix")
+    silent(_p, "chunk-relative-on-block", [E(LOT, "SinkhornVectorizer.transform", _NC_OLD, _NC_REL),
+                                           E(LOT, "SinkhornVectorizer.transform", "                    raw_chunk = X[chunk_start:chunk_end]\n", "                    raw_chunk = X_block[chunk_start:chunk_end]\n"),
+                                           E(LOT, "SinkhornVectorizer.transform", "                completed_chunks = []\n", "                completed_chunks = []\n                X_block = X[block_start:block_end]\n")],
+           "block-relative positions on the block's own slice")
